@@ -299,6 +299,19 @@ def run_numeric(prop, units, tier, seed, trusted_extra=(), design_ref='', lemmas
         if getattr(f, 'is_lemma', False):
             rep.undecide('lemma %s not discharged (%s %s)' % (f.cname, r.status, r.detail))
             continue
+        if r.status == 'undecided':
+            # the all-obligations query was not decided: ask for every obligation on its own (frame / assigns obligations are small and
+            # get a definite answer even when the functional postcondition does not)
+            r2 = cbmc_job(u.dir, f.cname + '.split', hf, 'h_' + f.cname, enforce=f.cname, replace=u.replace.get(f.cname, ()), smt=True,
+                          timeout=40, split=True, split_workers=8, expect_canary=False, solvers=['cvc5', 'z3'])
+            frame_fail = [x for x in r2.failed if re.search(r'\.assigns\.|loop_assigns|\.frees\.', x)]
+            if frame_fail:
+                payload = {'function': f.cname, 'class': u.cls, 'source': u.src, 'method': f.name, 'status': 'refuted (frame)',
+                           'failed_obligations': frame_fail, 'detail': 'the function writes state outside its contract frame (assigns clause)',
+                           'verifier_output': (r2.log or r.log)[-6000:], 'checker_cmd': r2.cmd}
+                if not rep.violation(key, payload, no_input=True):
+                    kf_obl += 1
+                continue
         # not discharged: search for a concrete input, then replay on the real class
         found = native_search(u, u.under + getattr(u, 'bounded_fns', []), f, seed, N)
         payload = {'function': f.cname, 'class': u.cls, 'source': u.src, 'method': f.name, 'status': r.status,
